@@ -418,18 +418,44 @@ def run_all_stream(h, rng, quick, res, cli=None, tag="all"):
             srcs.append("%s(%s)" % (b, av()))
             srcs.append("%s(%s, %s)" % (b, av(), av()))
         srcs.append("%s(%s, %s, %s)" % (b, av(), av(), av()))
+    # C01V: percentile — its side condition is discharged from the validity invariant, so the nearest-rank index
+    # `(p / 100 * (len - 1)).round() as usize` of the model is tied to the code here as well (C15 owns its laws):
+    # literal lists of 1..7 numbers (incl. duplicates, negative, huge, tiny), p on and around the rank boundaries
+    pct_pool = ["0", "1", "2", "0.5", "3.25", "10", "100", "-7", "1e300", "1e-300", "5e-324", "-0.0", "2.5", "1000"]
+    pct_ps = ["0", "100", "50", "25", "75", "33.3", "66.7", "12.5", "99.9", "0.1", "49.999", "50.001", "-1", "100.5", "1e-300"]
+    for _ in range(60 if quick else 600):
+        n_ = 1 + rng.below(7)
+        srcs.append("percentile([%s], %s)" % (", ".join(rng.choice(pct_pool) for _ in range(n_)), rng.choice(pct_ps)))
+    srcs.append("percentile([], 50)")
+    srcs.append("percentile([1, 0/0, 3], 50)")
+    srcs.append("[3, 1, 2] into (l => percentile(l, 100))")
     defs = g.coq_tables()          # after programs(): the generator may have extended the tables
     inp = "[" + "; ".join('((hx "%s"), %s)' % (c.hexs(k), v.coq()) for k, v in DEFAULT_INPUTS.p) + "]"
     defs = "Definition INP : list (string * value) := %s.\n%s" % (inp, defs)
     coq, _ = parse_to_coq(h, srcs)
     idx = [i for i, p in enumerate(coq) if p is not None]
-    outs = c.coq_eval_batch(ALL_REQUIRES, defs, ["(run_program_all_tab T INP %s)" % coq[i] for i in idx], tag, shard=120)
+    # C01V: the same run, followed by "#V:<values checked>:<values passing valid_valueb>:<valid_prog && valid_inputs>"
+    # (coq/ValidRun.v): the validity invariant of C01_program_no_panic_all observed on every value the model computes
+    outs = c.coq_eval_batch(ALL_REQUIRES + ["Blots.Valid", "Blots.ValidRun"], defs,
+                            ["(run_program_all_tab_v T INP %s)" % coq[i] for i in idx], tag, shard=120)
     model = [None] * len(srcs)
+    v_checked, v_valid, v_hyp, v_bad = 0, 0, 0, []
     for i, o in zip(idx, outs):
+        if o is not None and "#V:" in o:
+            o, vt = o.rsplit("#V:", 1)
+            try:
+                n_, k_, h_ = [int(x) for x in vt.split(":")]
+            except ValueError:
+                n_, k_, h_ = 0, -1, 0
+            v_checked += n_
+            v_valid += max(k_, 0)
+            v_hyp += h_
+            if k_ != n_ or h_ != 1:
+                v_bad.append((srcs[i], vt))
         model[i] = o
     rust = rust_eval(h, srcs)
     agree, mism, rejected, miss, unm, failed = 0, [], 0, 0, 0, 0
-    reach = {b: 0 for b in NEWLY_MODELLED + ["^"]}
+    reach = {b: 0 for b in NEWLY_MODELLED + ["^", "percentile"]}
     outcome = {}
     for s, r_, m_, cq in zip(srcs, rust, model, coq):
         if cq is None:
@@ -461,7 +487,15 @@ def run_all_stream(h, rng, quick, res, cli=None, tag="all"):
     if mism:
         res.tie_broken("correspondence C01/ALL: model (EvalAll + oracle tables) and implementation disagree on %d of %d programs"
                        % (len(mism), len(srcs)), "first: %r\nimpl : %s\nmodel: %s" % mism[0])
+    if v_bad:
+        res.tie_broken("correspondence C01/ALL-VALID: the validity invariant (coq/Valid.v) does not hold of a value the model computed, "
+                       "or a parsed program / the inputs hold a non-canonical number literal, on %d of %d programs — contradicting "
+                       "C01_program_no_panic_all / C01_table_oracle_valid" % (len(v_bad), len(idx)),
+                       "first: %r  checked:valid:hypotheses = %s" % v_bad[0])
     ev = {"programs": len(srcs), "agree": agree, "mismatches": len(mism), "parser_rejected": rejected, "oracle_table_miss_skipped": miss,
+          "validity_invariant": {"values_checked_valid_valueb(statement results + final environment, by vm_compute)": v_checked,
+                                 "values_valid": v_valid, "programs_with_valid_prog_and_valid_inputs": v_hyp,
+                                 "programs_violating": len(v_bad)},
           "unmodelled": unm, "programs_reaching_each_builtin(agreeing programs that mention it)": reach, "last_statement_outcome": outcome,
           "oracle_tables": {"libm": len(g.libm), "powf": len(g.powf), "str": len(g.strt), "lambda_text": len(g.lam)},
           "numeric_argument_pool": {"level0": len(g.L0), "level1": len(g.L1) + len(g.P1), "level2": len(g.L2) + len(g.P2)},
